@@ -452,6 +452,10 @@ func (self Value) MarshalTo(to *thrift.TypeDescriptor, opts *Options) ([]byte, e
 func marshalTo(read *thrift.BinaryProtocol, write *thrift.BinaryProtocol, from *thrift.TypeDescriptor, to *thrift.TypeDescriptor, opts *Options) error {
 	switch t := to.Type(); t {
 	case thrift.STRUCT:
+		if from.Type() != thrift.STRUCT {
+			// the two descriptors disagree on the kind of this value: from.Struct() would be nil
+			return wrapError(meta.ErrDismatchType, fmt.Sprintf("expect type STRUCT, buf got type %s", from.Type()), nil)
+		}
 		if from == to {
 			goto skip_val
 		}
